@@ -14,4 +14,7 @@ for feats in (False, True):
     print('MIR dump', 'default features' if feats else 'no default features', p, f'{secs:.1f}s', flush=True)
 for fc in (False, True):
     t = time.time(); print('replay binary', build_replay(fc), f'{time.time() - t:.1f}s', flush=True)
+from mirsym.kanirun import run_kani
+res, secs = run_kani(['position_order_is_lexicographic'])
+print('kani build + smoke harness', res[0]['status'], f'{secs:.1f}s', flush=True)
 PY
